@@ -115,7 +115,7 @@ func (w *World) directEffect(in ssa.Instruction) string {
 				return "call " + full
 			}
 			if cal.Pkg != nil && cal.Pkg.Pkg.Path() == "sync/atomic" {
-				switch cal.Name() {
+				switch nm(cal) {
 				case "Store", "Swap", "CompareAndSwap", "Add":
 					if len(cc.Args) > 0 {
 						if fa, ok := cc.Args[0].(*ssa.FieldAddr); ok && w.isStateStruct(fa.X.Type()) {
@@ -138,7 +138,7 @@ func (w *World) directEffect(in ssa.Instruction) string {
 		// dynamic call through a function value held in a Manager field
 		if b, f, ok := fieldLoad(cc.Value); ok && f != nil && b != nil {
 			if n := namedOf(b.Type()); n != nil && n.Obj() == w.Named("allocation", "Manager").Obj() {
-				switch f.Name() {
+				switch nm(f) {
 				case "permissionHandler":
 					return "" // operator policy predicate
 				}
